@@ -2,6 +2,8 @@ SPECIFICATION TraceSpec
 CONSTANTS
   MaxSteps = 1000
   MaxCuts = 1000
-INVARIANTS AfterDI AfterTO2 FailedRunNoCred
-PROPERTIES ReuseChangesNothing Atomic CredOnlyAfterDone2
+  Ext = TRUE
+  AIOs = {FALSE}
+INVARIANTS AfterDI AfterTO2 FailedRunNoCred AIOReady StaleBlobRefused RegisteredByOwner HeldNotServed
+PROPERTIES ReuseChangesNothing Atomic CredOnlyAfterDone2 LocateOnlyLive RestoreGivesBack FailedResaleKeepsVoucher
 POSTCONDITION TraceAccepted
